@@ -95,7 +95,7 @@ def label_sort_key(kind: str):
     return lambda lab: lab
 
 
-def expected_order(present_ids, ks, kinds, labels_per_key, sort: bool):
+def expected_order(present_ids, ks, kinds, labels_per_key, sort: bool, bool_lenient: bool = True):
     """Order of the group ids (tuples for several keys) in the result index.
     present_ids: iterable of ids (or tuples) that must be listed."""
     present = list(dict.fromkeys(present_ids))
@@ -106,7 +106,7 @@ def expected_order(present_ids, ks, kinds, labels_per_key, sort: bool):
     else:
         tup = lambda g: g
     single_cat = (not multi) and kinds[0].split("_")[0] == "cat"
-    single_bool = (not multi) and kinds[0].split("_")[0] == "bool"
+    single_bool = bool_lenient and (not multi) and kinds[0].split("_")[0] == "bool"
     if sort or single_cat or single_bool:
         # categoricals always come in category order; bool keys as (False, True)
         keyf = [label_sort_key(k) for k in kinds]
